@@ -179,6 +179,14 @@ func init() {
 				gp.FirstWide = 300 + r.Intn(700)
 				gp.MaxBatches = 8
 				cfg.MaxPreMergerBatches = r.Pick(4, 10)
+				// ... and with deferred sorting that segment reaches the
+				// persister unsorted unless some reader got to it first:
+				// mostly deferred sort, mostly no monitor reads in between
+				cfg.DeferredSort = r.Chance(3, 4)
+				gp.QuietPct = 80
+				if r.Chance(1, 2) {
+					gp.FirstBurst = 2 + r.Intn(2)
+				}
 			}
 			if idx%8 == 5 {
 				eng.PartialCompactionProfile(r, &cfg, &gp)
